@@ -541,6 +541,8 @@ func c19ErrClass(err error) string {
 		return "emptypsk"
 	case strings.Contains(s, "certificate has expired or is not yet valid"):
 		return "certtime"
+	case strings.Contains(s, "x509: certificate is valid for") || strings.Contains(s, "x509: certificate is not valid for any names"):
+		return "certname"
 	case strings.Contains(s, "session supported extended_master_secret but client does not"):
 		return "ems-abort"
 	case strings.Contains(s, "invalid PSK binder"):
@@ -658,8 +660,8 @@ func genResumeLoad(r *Rng, i int, tier string) string {
 		key = Pick(r, []string{"a", "b", "r"})
 	}
 	isn := "-"
-	if p(8) {
-		isn = Pick(r, []string{"*", "a", "b", "w"})
+	if p(5) {
+		isn = Pick(r, []string{"*", "*", "a", "b", "w"})
 	}
 	sv := Pick(r, []string{"0303", "0303", "0304", "0304", "0304", "0302", "0301"})
 	var ss string
@@ -686,6 +688,9 @@ func genResumeLoad(r *Rng, i int, tier string) string {
 	cert := "good"
 	if p(8) {
 		cert = Pick(r, []string{"expired", "wrong"})
+	}
+	if isn == "*" && p(2) {
+		cert = "wrong" // "*": the names of the cached certificate must not matter
 	}
 	ch := 1
 	if p(8) {
@@ -811,21 +816,28 @@ type seqConn struct {
 	ct, st int64
 	hrr    bool
 	flags  string
+	isn    string // InsecureServerNameToVerify: "-" unset, "*", or a name label (a b w)
 	ops    string // pre-handshake calls, '.'-separated: B BuildHandshakeState, R SetClientRandom, S SetSNI(same name), A edit of the ALPN extension; "-" = Handshake directly
 }
 
 func parseSeqConn(s string) (c seqConn, ok bool) {
 	p := strings.Split(s, "/")
-	if len(p) != 7 && len(p) != 8 {
+	if len(p) < 7 || len(p) > 9 {
 		return c, false
 	}
-	c.id, c.sn, c.flags, c.ops = p[0], p[1], p[6], "-"
-	if len(p) == 8 {
+	c.id, c.sn, c.flags, c.ops, c.isn = p[0], p[1], p[6], "-", "-"
+	if len(p) >= 8 {
 		c.ops = p[7]
 		for _, o := range strings.Split(c.ops, ".") {
-			if o != "B" && o != "R" && o != "S" && o != "A" && o != "-" {
+			if o != "B" && o != "R" && o != "S" && o != "A" && o != "W" && o != "-" {
 				return c, false
 			}
+		}
+	}
+	if len(p) == 9 {
+		c.isn = p[8]
+		if c.isn != "-" && c.isn != "*" && c.isn != "a" && c.isn != "b" && c.isn != "w" {
+			return c, false
 		}
 	}
 	var h int
@@ -833,7 +845,7 @@ func parseSeqConn(s string) (c seqConn, ok bool) {
 		return c, false
 	}
 	c.hrr = h == 1
-	if (c.smax != 12 && c.smax != 13) || (c.sn != "a" && c.sn != "b") {
+	if (c.smax != 12 && c.smax != 13) || (c.sn != "a" && c.sn != "b" && c.sn != "w") {
 		return c, false
 	}
 	return c, true
@@ -841,10 +853,17 @@ func parseSeqConn(s string) (c seqConn, ok bool) {
 
 func (c seqConn) String() string {
 	base := fmt.Sprintf("%s/%s/%d/%d/%d/%s/%s", c.id, c.sn, c.smax, c.ct, c.st, b2i(c.hrr), c.flags)
-	if c.ops == "" || c.ops == "-" {
+	ops := c.ops
+	if ops == "" {
+		ops = "-"
+	}
+	if c.isn != "" && c.isn != "-" {
+		return base + "/" + ops + "/" + c.isn
+	}
+	if ops == "-" {
 		return base
 	}
-	return base + "/" + c.ops
+	return base + "/" + ops
 }
 
 // preOps runs the documented pre-handshake calls of one connection on the UConn.
@@ -856,6 +875,10 @@ func preOps(u *tls.UConn, ops string, name string, r *Rng) error {
 		switch o {
 		case "B":
 			if err := u.BuildHandshakeState(); err != nil {
+				return err
+			}
+		case "W":
+			if err := u.BuildHandshakeStateWithoutSession(); err != nil {
 				return err
 			}
 		case "R":
@@ -935,8 +958,27 @@ func genResumeSeq(r *Rng, i int, tier string) string {
 		return Pick(r, Pick(r, pools))
 	}
 	steps := []int64{0, 1, 3600, 86400, week - 1, week, week + 1, 8 * 86400}
-	mode := i % 8
+	mode := i % 9
 	switch mode {
+	case 8:
+		// which name the cached certificate is re-checked against: InsecureServerNameToVerify unset / "*" /
+		// a covered name / an uncovered name x ServerName covered (a, b) / uncovered (w)
+		id := pickID(seqPSK, seq12, seq13, []string{"Golang-0"}, seqPSK)
+		smax := 13
+		if r.Intn(3) == 0 {
+			smax = 12
+		}
+		type nv struct{ sn, isn string }
+		combos := []nv{{"w", "*"}, {"w", "*"}, {"w", "*"}, {"w", "a"}, {"w", "b"}, {"a", "*"}, {"a", "b"}, {"a", "-"}, {"w", "-"}, {"a", "w"}, {"b", "*"}}
+		cur := Pick(r, combos)
+		t := base
+		for k := 0; k < n; k++ {
+			if k > 0 && r.Intn(5) == 0 {
+				cur = Pick(r, combos)
+			}
+			conns = append(conns, seqConn{id: id, sn: cur.sn, isn: cur.isn, smax: smax, ct: t, st: t, flags: "o"})
+			t += Pick(r, []int64{0, 1, 60, 3600})
+		}
 	case 0, 1, 2:
 		// the property's main case: one parrot, one name, one server configuration
 		var id string
@@ -1046,7 +1088,8 @@ func genResumeSeq(r *Rng, i int, tier string) string {
 		}
 	}
 	// pre-handshake calls: explicit BuildHandshakeState, documented edits, rebuilds
-	opsPool := []string{"B", "B.B", "B.R", "B.S", "B.A", "B.R.B", "B.R.A", "B.A.S", "B.S.R", "B.B.R", "B.A.B.R"}
+	opsPool := []string{"B", "B.B", "B.R", "B.S", "B.A", "B.R.B", "B.R.A", "B.A.S", "B.S.R", "B.B.R", "B.A.B.R",
+		"W", "W", "W.B", "W.R", "B.W", "W.B.R", "W.W"} // W = BuildHandshakeStateWithoutSession
 	if mode == 0 || mode == 2 || mode == 3 || r.Intn(3) == 0 {
 		for k := range conns {
 			if r.Intn(2) == 0 {
@@ -1142,6 +1185,13 @@ func execResumeSeq(in KV) string {
 		}
 		cli := &tls.Config{ServerName: c19Names[c.sn], RootCAs: kit().pool, Time: c19Time(c.ct), ClientSessionCache: cache}
 		applyCfgFlags(cli, c.flags)
+		switch c.isn {
+		case "", "-":
+		case "*":
+			cli.InsecureServerNameToVerify = "*"
+		default:
+			cli.InsecureServerNameToVerify = c19Names[c.isn]
+		}
 		key := c19Names[c.sn]
 		peek := peekEntry(cache, key, E)
 		var peekTicket, peekSecret []byte
